@@ -240,7 +240,7 @@ class Gen:
             self.opts["line_comment_prefix"] = "%#"
         self.extra = {"env_class": r.choice(["plain", "plain", "sandboxed", "immutable", "native"]),
                       "entry": r.choice(["render", "render", "generate", "stream", "module"] + (["render_async", "generate_async"] if self.opts["enable_async"] else [])),
-                      "history": r.choice(["none", "none", "twice", "bytecode-cache", "overlay"])}
+                      "history": r.choice(["none", "none", "twice", "bytecode-cache", "overlay", "twin-directories"])}
         self.k = 0
         self.multiline_above = False
         self.depth_of_marker = 0
@@ -331,7 +331,7 @@ class Gen:
 EXTENSIONS = ["jinja2.ext.i18n", "jinja2.ext.do", "jinja2.ext.loopcontrols"]
 
 
-def make_env(jinja2, case, recorder=None, bytecode_cache=None):
+def make_env(jinja2, case, recorder=None, bytecode_cache=None, loader=None):
     srcs = case["templates"]
 
     def load(name):
@@ -348,7 +348,7 @@ def make_env(jinja2, case, recorder=None, bytecode_cache=None):
         from jinja2.nativetypes import NativeEnvironment as E
     else:
         E = jinja2.Environment
-    env = E(loader=jinja2.FunctionLoader(load), extensions=EXTENSIONS, bytecode_cache=bytecode_cache, **case["options"])
+    env = E(loader=loader or jinja2.FunctionLoader(load), extensions=EXTENSIONS, bytecode_cache=bytecode_cache, **case["options"])
     env.install_null_translations(newstyle=False)
     env.globals["boom"] = boom      # a global: also visible inside imported macros
     if recorder is not None:
@@ -413,14 +413,14 @@ def run_entry(env, entry):
     return t.render()
 
 
-def observe(jinja2, case, recorder=None, env=None):
-    """-> dict(kind=..., template=..., line=..., tb=(file, line) or None)"""
+def observe(jinja2, case, recorder=None, env=None, root="/tpl/"):
+    """-> dict(kind=..., template=..., line=..., tb=(file, line) or None); [root] = directory prefix of template files"""
     env = env or make_env(jinja2, case, recorder)
     try:
         out = run_entry(env, case.get("extra", {}).get("entry", "render"))
         return {"kind": "rendered", "text": str(out)[:60]}
     except Boom as e:
-        frames = [f for f in traceback.extract_tb(e.__traceback__) if f.filename.startswith("/tpl/")]
+        frames = [f for f in traceback.extract_tb(e.__traceback__) if f.filename.startswith(root)]
         if not frames:
             return {"kind": "runtime", "tb": None}
         return {"kind": "runtime", "tb": (frames[-1].filename, frames[-1].lineno)}
@@ -429,9 +429,39 @@ def observe(jinja2, case, recorder=None, env=None):
         last = (frames[-1].filename, frames[-1].lineno) if frames else None
         return {"kind": "syntax", "name": e.name, "filename": e.filename, "line": e.lineno, "tb": last, "message": e.message}
     except Exception as e:  # noqa
-        frames = [f for f in traceback.extract_tb(e.__traceback__) if f.filename.startswith("/tpl/")]
+        frames = [f for f in traceback.extract_tb(e.__traceback__) if f.filename.startswith(root)]
         return {"kind": "other:" + type(e).__name__, "message": str(e)[:100],
                 "tb": (frames[-1].filename, frames[-1].lineno) if frames else None}
+
+
+def observe_twin_directories(jinja2, case):
+    """configuration + history with REAL files: the set is written, byte-identical, into two directories; two
+    environments (FileSystemLoader on one directory each) share ONE bytecode cache; the first directory is rendered
+    first.  Every error must name the file of the directory it was loaded from.  -> [(root, observation, filename ok)]"""
+    import os
+    import shutil
+    import tempfile
+    base = tempfile.mkdtemp(prefix="c35_twin_", dir=lib.BUILD)
+    out = []
+    try:
+        bc = memory_bytecode_cache(jinja2)
+        for d in ("dirA", "dirB"):
+            root = os.path.join(base, d) + os.sep
+            os.makedirs(root)
+            for name, src in case["templates"].items():
+                with open(root + name, "w", encoding="utf-8", newline="") as f:
+                    f.write(src)
+            env = make_env(jinja2, case, bytecode_cache=bc, loader=jinja2.FileSystemLoader(root))
+            obs = observe(jinja2, case, env=env, root=root)
+            names_ok = None
+            try:
+                names_ok = all(env.get_template(n).filename == root + n for n in case["templates"])
+            except jinja2.TemplateSyntaxError:
+                pass
+            out.append((root, obs, names_ok))
+    finally:
+        shutil.rmtree(base, ignore_errors=True)
+    return out
 
 
 def observe_history(jinja2, case):
@@ -453,8 +483,8 @@ def observe_history(jinja2, case):
     return None
 
 
-def judge(case, obs):
-    want_file = "/tpl/" + case["where"]
+def judge(case, obs, root="/tpl/"):
+    want_file = root + case["where"]
     line = case["line"]
     if case["kind"] == "runtime":
         if obs["kind"] != "runtime":
@@ -602,6 +632,23 @@ def run(ctx):
             obs2 = observe_history(jinja2, case)
         except Exception as e:  # noqa
             obs2 = {"kind": "harness-error:" + type(e).__name__, "message": str(e)[:100]}
+        if case["extra"]["history"] == "twin-directories":
+            try:
+                twins = observe_twin_directories(jinja2, case)
+            except Exception as e:  # noqa
+                twins = [("?", {"kind": "harness-error:" + type(e).__name__, "message": str(e)[:100]}, None)]
+            for root, obs_t, names_ok in twins:
+                ctx.case(key=("twin", idx, root[-5:]))
+                ctx.count("history/twin-directories")
+                why_t = judge(case, obs_t, root) if root != "?" else str(obs_t)
+                if not why_t and names_ok is False:
+                    why_t = "Template.filename does not name the file the template was loaded from"
+                if why_t and not why:
+                    ctx.reject(dict(pub, observed=obs_t, history="twin-directories", directory=root[-5:]),
+                               "same-name same-source templates in two directories sharing a bytecode cache: " + why_t.replace(root, "<" + root[-5:-1] + ">/"),
+                               signature(case) + ":history:twin-directories")
+                elif not why_t:
+                    ctx.validated()
         if obs2 is not None:
             ctx.case(key=("history", case["extra"]["history"], idx))
             ctx.count("history/" + case["extra"]["history"])
@@ -639,6 +686,11 @@ def replay(ctx, data):
         return run(ctx)
     obs = observe(jinja2, case)
     why = judge(case, obs)
+    if case.get("history") == "twin-directories" or case.get("extra", {}).get("history") == "twin-directories":
+        for root, obs_t, names_ok in observe_twin_directories(jinja2, case):
+            w = judge(case, obs_t, root) or (None if names_ok is not False else "Template.filename names another file")
+            print("twin", root[-5:], obs_t, "->", w)
+            why = why or w
     for name, src in case["templates"].items():
         print(f"--- {name}\n" + "\n".join(f"{i + 1:3d} {ln!r}" for i, ln in enumerate(__import__('re').split(r"\r\n|\r|\n", src))))
     print("expected:", (case["where"], case["line"]), "observed:", obs)
